@@ -98,6 +98,22 @@ def restore():
                     setattr(h, k, val)
         except (AttributeError, TypeError):
             pass
+    # functools caches live inside the function object
+    for h in _holders():
+        for k, v in list(vars(h).items()):
+            cc = getattr(v, 'cache_clear', None)
+            if cc is not None and callable(cc):
+                try:
+                    cc()
+                except Exception:
+                    pass
+            f = getattr(v, '__func__', None)      # static/class methods
+            cc = getattr(f, 'cache_clear', None)
+            if cc is not None and callable(cc):
+                try:
+                    cc()
+                except Exception:
+                    pass
     # state added at run time under new names (a cache created lazily)
     seen = {(id(h), k) for h, k, _, _ in _saved}
     for h in _holders():
